@@ -254,6 +254,20 @@ for rct_val in (0, 1, "", "yes"):
         leg.violation(key, f"recurse_child_tasks={rct_val!r}: a child task came out with {len(st5.frames)} frames (a stub is due iff the option is falsy)")
     G5.close()
 
+# 4c. the same child asked for more than once within one extraction (two hooks that both list it): every answer is a full one
+leg.case("extract_child-same-task-twice", True)
+res2 = []
+G6 = probe(); next(G6)
+def twice():
+    for _ in range(3):
+        res2.append(E.extract_child(G6, for_task=True))
+ACTION[0] = twice
+stackscope.extract(G, with_contexts=True, recurse_child_tasks=True)
+if len(res2) != 3 or not all(s_.frames and s_.root is G6 for s_ in res2):
+    leg.violation("extract_child-same-task-twice", f"recurse_child_tasks=True, the same child extracted three times in one call tree: frame counts "
+                                                   f"{[len(s_.frames) for s_ in res2]}")
+G6.close()
+
 # 5. with_contexts=False: no contexts anywhere, same frames
 leg.case("no-contexts", True)
 a_, b_ = stackscope.extract(G, with_contexts=True), stackscope.extract(G, with_contexts=False)
